@@ -320,8 +320,12 @@ def finish(ctx, level, coverage, assumptions):
         'coverage': cov, 'assumptions': assumptions,
         'wall_s': round(time.time() - ctx.t0, 2), 'violations': len(ctx.violations),
     }
-    os.makedirs(os.path.join(VERIF, 'evidence'), exist_ok=True)
-    with open(os.path.join(VERIF, 'evidence', ctx.prop + '.json'), 'w') as f:
+    # evidence under evidence/ only ever describes runs against /repo itself; runs against a scratch
+    # worktree (VERIF_REPO: experiments, seeded changes) leave theirs beside the replays
+    evdir = os.path.join(VERIF, 'evidence') if REPO == '/repo' else os.path.join(VERIF, 'replays', 'scratch_evidence')
+    os.makedirs(evdir, exist_ok=True)
+    ev['repo'] = REPO
+    with open(os.path.join(evdir, ctx.prop + '.json'), 'w') as f:
         json.dump(ev, f, indent=1, default=str)
     for line in ctx.known:
         print(line)
